@@ -1,3 +1,31 @@
-From Coq Require Import List String.
-Example C12_placeholder : True. Proof. exact I. Qed.
-Print Assumptions C12_placeholder.
+(** C12 — exists, find_one, children and siblings agree with find.  Property theorems only (Finder level, list-backed;
+    the Sid-level clauses over the file system are exercised by correspondence in the data checks). *)
+From Coq Require Import List String Ascii Bool Arith Permutation Sorted.
+From Spil Require Import Base.Str Base.Dict Base.Outcome Regex.Re Conf.Conf Conf.WF Sid.Sid
+  Search.Unfold Search.FindList Search.GlobProofs Search.FindListProofs Search.UnfoldProofs.
+From SpilGen Require Hamlet.
+Import ListNotations.
+Local Open Scope string_scope.
+
+Theorem C12_find_one : forall L items s o, find_one L items s = Ok o ->
+  exists l, find_list L items s = Ok l /\ o = hd_error l.
+Proof. exact find_one_spec. Qed.
+Print Assumptions C12_find_one.
+
+Theorem C12_exists : forall L items s b, ~ In "" items -> exists_ L items s = Ok b ->
+  exists l, find_list L items s = Ok l /\ b = negb (match l with [] => true | _ => false end).
+Proof. exact exists_nonempty. Qed.
+Print Assumptions C12_exists.
+
+(* as_sid=False yields exactly the strings of the as_sid=True results *)
+Theorem C12_as_sid : forall c Ld, load c = Some Ld -> wf_loadedb Ld = true ->
+  forall items s xs, Forall plain_entry items -> find_list_sids Ld items s = Ok xs ->
+  exists l, find_list Ld items s = Ok l /\ map s_string xs = l.
+Proof. exact find_list_sids_strings_items. Qed.
+Print Assumptions C12_as_sid.
+
+(* the guard of C12_exists is needed: the recorded edge (D20) *)
+Example C12_exists_empty_string_refuted :
+  exists_ Hamlet.the_loaded [""] "*" = Ok false /\ find_list Hamlet.the_loaded [""] "*" = Ok [""].
+Proof. vm_compute. split; reflexivity. Qed.
+Print Assumptions C12_exists_empty_string_refuted.
